@@ -501,6 +501,9 @@ func (p *proverCtx) lin(v ssa.Value) *linexp {
 		}
 	case *ssa.UnOp:
 		if x.Op == token.MUL {
+			if fwd := forwardedStore(x); fwd != nil {
+				return p.lin(fwd)
+			}
 			if fa, ok := x.X.(*ssa.FieldAddr); ok {
 				if p.stableField(fa) {
 					lv := lvar{v: fa.X, kind: 'f', idx: fa.Field}
@@ -877,7 +880,7 @@ func (c *Ctx) resultRange(f *ssa.Function, idx int) (lo, hi int64, hasLo, hasHi 
 			break
 		}
 		p := c.newProver(f, r.Block())
-		e := p.lin(r.Results[idx])
+		e := p.lin(retVal(r, idx))
 		// candidate bounds
 		rlo, okLo := findBound(p, e, true)
 		rhi, okHi := findBound(p, e, false)
@@ -1036,4 +1039,47 @@ func sameVal(a, b ssa.Value) bool {
 	}
 	// two loads of the same never-stored local/field are not identified here
 	return false
+}
+
+// forwardedStore: for a load of base.f (or of a local) finds a store to the same location earlier
+// in the same block with no call or other store to that field in between; returns the stored value.
+func forwardedStore(ld *ssa.UnOp) ssa.Value {
+	b := ld.Block()
+	if b == nil {
+		return nil
+	}
+	sameLoc := func(a ssa.Value) bool {
+		if a == ld.X {
+			return true
+		}
+		fa1, ok1 := a.(*ssa.FieldAddr)
+		fa2, ok2 := ld.X.(*ssa.FieldAddr)
+		return ok1 && ok2 && fa1.X == fa2.X && fa1.Field == fa2.Field
+	}
+	sameField := func(a ssa.Value) bool {
+		fa1, ok1 := a.(*ssa.FieldAddr)
+		fa2, ok2 := ld.X.(*ssa.FieldAddr)
+		return ok1 && ok2 && fa1.Field == fa2.Field && types.Identical(fa1.X.Type(), fa2.X.Type())
+	}
+	var val ssa.Value
+	for _, in := range b.Instrs {
+		if in == ssa.Instruction(ld) {
+			break
+		}
+		switch x := in.(type) {
+		case *ssa.Store:
+			if sameLoc(x.Addr) {
+				val = x.Val
+			} else if sameField(x.Addr) {
+				val = nil
+			}
+		case *ssa.Call:
+			if _, isBuiltin := x.Call.Value.(*ssa.Builtin); !isBuiltin {
+				if _, isAlloc := ld.X.(*ssa.Alloc); !isAlloc {
+					val = nil
+				}
+			}
+		}
+	}
+	return val
 }
